@@ -419,6 +419,14 @@ theorem ValCh.trans {s s1 s2 : State} {k : Nat} (h1 : ValCh s s1) (h2 : ValCh s1
     · exact .inr (.inl h')
     · exact .inr (.inr h')
 
+/-- every recorded source of a node is read by the node's body (static over-approximation) -/
+def SrcStatic (p : Prog) (s : State) : Prop :=
+  ∀ w x, x ∈ (s.get w).sources → (bodyOf p w).readsNode x = true
+
+theorem SrcStatic.mono {p : Prog} {s s' : State} (h : SrcStatic p s)
+    (hsub : ∀ w x, x ∈ (s'.get w).sources → x ∈ (s.get w).sources) : SrcStatic p s' :=
+  fun w x hx => h w x (hsub w x hx)
+
 /-- between `s` and `s'` every node ran at most once, and a node that ran is clean afterwards
 (and was not clean before) -/
 def RunRel (s s' : State) : Prop :=
